@@ -113,7 +113,7 @@ pub fn check_c05(tier: Tier, seed: u64) -> PropReport {
     let o = drive(&e, "C05", tier, cases, seed);
     rep.push(e.name, o);
     if tier == Tier::Thorough && fuzz_enabled() {
-        let o = fuzz_stage(&e, "C05", "farm_custody_rewards", 60_000, seed);
+        let o = fuzz_stage(&e, "C05", "farm_custody_rewards", 30_000, seed);
         rep.push("fuzz:farm_custody_rewards", o);
     }
     rep.floor("position close: partial", cases / 4);
@@ -130,7 +130,7 @@ pub fn check_c06(tier: Tier, seed: u64) -> PropReport {
     let o = drive(&e, "C06", tier, cases, seed);
     rep.push(e.name, o);
     if tier == Tier::Thorough && fuzz_enabled() {
-        let o = fuzz_stage(&e, "C06", "farm_custody_rewards", 60_000, seed);
+        let o = fuzz_stage(&e, "C06", "farm_custody_rewards", 30_000, seed);
         rep.push("fuzz:farm_custody_rewards", o);
     }
     rep.floor("claim: paid > 0", cases / 2);
